@@ -128,9 +128,20 @@ def present_edge(view, f):
             zero = [tb for v, tb in t["targets"] if v == 0][0]
             present, absent = (zero, t["otherwise"]) if neg else (t["otherwise"], zero)
             return bi, present, absent, d
-        if d[0] == "discr" and "Entry" in str(view.fn(f.key)) :
-            pass
+        if d[0] == "discr" and len(f.cfg.succ[bi]) >= 2:
+            # `match map.get_full_mut2(&item) { Some(..) => update, None => grow }` / `if let Some(p) = map.get_mut(&item)`
+            from .core import edge_presence
+            look = [x for x in walk(d) if x[0] == "call" and x[1].split("::")[-1] in KEYED_LOOKUPS and len(x[2]) == 2
+                    and component(x[2][0]) and component(x[2][0])[0] == "map"]
+            if look and f.cfg.in_loop(bi):
+                pres = [nb for nb in f.cfg.succ[bi] if edge_presence(d, t, nb) == "present"]
+                absn = [nb for nb in f.cfg.succ[bi] if edge_presence(d, t, nb) == "absent"]
+                if len(pres) == 1 and len(absn) == 1:
+                    return bi, pres[0], absn[0], look[0]
     return None
+
+
+KEYED_LOOKUPS = ("get", "get_mut", "get_full", "get_full_mut", "get_full_mut2", "get_index_of", "get_key_value")
 
 
 def occupied_effect(view, f, region):
@@ -304,6 +315,32 @@ def r_strat(ctx, view):
         okd = esc is None
     ctx.ob("R-STRAT", "Store::append:other-left-empty", okd, f.loc(),
            "other.drain() on every path (early return only when other is already empty)" if okd else "path avoiding other.drain(): %s" % esc)
+    # the queue-level append hands both stores to Store::append on every path (and does it once)
+    for Q in QUEUES:
+        q = prog.fn(Q + "::append")
+        ctx.anchor(Q + "::append", q is not None)
+        sites = []
+        for bb, t in q.calls():
+            ci = view.fx.call_info(q, bb)
+            if ci.local_callee == "store::Store::append":
+                a = view.fx.args_vp(ci)
+
+                def store_of(x, pidx):
+                    x = strip(x)
+                    while x[0] in ("ref", "deref"):
+                        x = strip(x[1])
+                    if x[0] == "field" and x[2] == "store":
+                        b = strip(x[1])
+                        while b[0] in ("ref", "deref"):
+                            b = strip(b[1])
+                        return b[0] == "param" and b[2] == pidx
+                    return False
+                if len(a) == 2 and store_of(a[0], 1) and store_of(a[1], 2):
+                    sites.append(bb)
+        ok = len(sites) == 1 and not q.cfg.in_loop(sites[0]) and (sites[0] == 0 or q.cfg.escape_path(0, set(sites)) is None)
+        ctx.ob("R-STRAT", "%s::append:delegates" % QNAME[Q], ok, q.loc(),
+               "Store::append(self.store, other.store) on every path, once" if ok else
+               "Store::append(self.store, other.store) is called at %d site(s) / not on every path" % len(sites))
 
 
 # ------------------------------------------------------------------------------------------
@@ -583,7 +620,7 @@ def passes_param(view, f, pidx):
     return out
 
 
-def pred_chain(view, f, pidx, depth=0):
+def pred_chain(view, f, pidx, depth=0, invoke_ok=()):
     """where does the closure parameter pidx of f end up?  -> (terminals [(fn key, bb, callee key)], problems [str], hops [str])
     a hop is: handing the parameter on as an argument (crate callee: followed; external callee: terminal), or capturing it
     in an adapter closure that invokes it exactly once on every path, outside loops, and returns its verdict unchanged -
@@ -607,7 +644,7 @@ def pred_chain(view, f, pidx, depth=0):
             probs.append("a path through %s does not hand %s on" % (short(owner.key), what))
         if ci.local_callee:
             hops.append(short(ci.local_callee))
-            t2, p2, h2 = pred_chain(view, prog.fn(ci.local_callee), argpos + 1, depth + 1)
+            t2, p2, h2 = pred_chain(view, prog.fn(ci.local_callee), argpos + 1, depth + 1, invoke_ok)
             terms.extend(t2)
             probs.extend(p2)
             hops.extend(h2)
@@ -620,8 +657,14 @@ def pred_chain(view, f, pidx, depth=0):
         for bb, t in g.calls():
             # invoked ?
             if "func" in t and (t["func"].get("trait") or "").startswith("std::ops::Fn") and t["args"] and is_p(vp.operand(g, t["args"][0])):
-                if g is f:
-                    probs.append("%s invokes the predicate itself" % short(f.key))
+                if g is f or f.key in invoke_ok:
+                    if f.key in invoke_ok:
+                        hops.append("invoked in %s" % short(f.key))
+                        terms.append((f.key, bb, "invoke:" + f.key))
+                        if g.cfg.in_loop(bb):
+                            probs.append("invoked inside a loop of %s" % short(g.key))
+                    else:
+                        probs.append("%s invokes the predicate itself" % short(f.key))
                     continue
                 # adapter closure
                 calls = [(b2, t2) for b2, t2 in g.calls() if "func" in t2 and (t2["func"].get("trait") or "").startswith("std::ops::Fn")
@@ -730,6 +773,16 @@ def r_once(ctx, view):
             ctx.ob("R-ONCE", "%s::%s:predicate-chain" % (QNAME[Q], nm), ok, q.loc(),
                    ("the predicate reaches IndexMap::retain2 exactly once, every hop on every path and outside loops (%s)" % " -> ".join(hops)) if ok else
                    "predicate chain: terminals %s; problems: %s" % ([(short(t[0]), t[2].split("::")[-1]) for t in terms], "; ".join(probs) or "-"))
+    # change_priority_by: the priority setter is run only by the Store primitive (which R-ASSIGN shows runs it exactly once, on the
+    # found entry): no queue-level code applies it to anything
+    for Q in QUEUES:
+        q = prog.fn("%s::change_priority_by" % Q)
+        ctx.anchor("%s::change_priority_by" % Q, q is not None)
+        terms, probs, hops = pred_chain(view, q, 3, invoke_ok=("store::Store::change_priority_by",))
+        ok = not probs and len(terms) == 1 and terms[0][2] == "invoke:store::Store::change_priority_by"
+        ctx.ob("R-ONCE", "%s::change_priority_by:setter-chain" % QNAME[Q], ok, q.loc(),
+               ("the setter reaches Store::change_priority_by only (%s)" % " -> ".join(hops)) if ok else
+               "setter chain: ends %s; problems: %s" % ([(short(t[0]), t[2].split("::")[-1]) for t in terms], "; ".join(probs) or "-"))
     # queue level: predicate parameters are only forwarded, unmodified, to the store primitive
     table = {PQ: (("pop_if", "store::Store::swap_remove_if", 2),),
              DPQ: (("pop_min_if", "store::Store::swap_remove_if", 2), ("pop_max_if", "store::Store::swap_remove_if", 2))}
@@ -1143,10 +1196,13 @@ def r_readers(ctx, view):
     r = ret_term(view, f)
     names = [c[1].split("::")[-1] for c in _calls_in(r)]
     cl = prog.closures_of(f.key)
-    okc = len(cl) == 1
+    # the projection handed to `map`: a closure, or a (nested) function used as a value
+    fnvals = [prog.fn(x[1]) for x in walk(r) if x[0] == "fnconst" and prog.fn(x[1]) is not None and prog.fn(x[1]).body]
+    mappers = list(cl) + [g for g in fnvals if g not in cl]
+    okc = len(mappers) == 1
     if okc:
-        cr = strip(ret_term(view, cl[0]))
-        okc = cr[0] == "field" and cr[2] in (0, "0")
+        cr = strip(ret_term(view, mappers[0]))
+        okc = cr[0] == "field" and cr[2] in (0, "0") and strip(cr[1])[0] in ("cparam", "param")
     ok = "collect" in names and "into_iter" in names and okc and any(c[1].split("::")[-1] == "into_iter" and component(c[2][0]) and component(c[2][0])[0] == "map" for c in _calls_in(r))
     ob("Store::into_vec", ok, f, "collects the items (.0) of map.into_iter()")
     # queue level: whatever the delegation chain, the value returned is the Store-level one on `self.store`
@@ -1274,6 +1330,20 @@ def r_returns(ctx, view):
                     continue
                 bad.append(term_str(a)[:50])
             ob("%s::%s" % (QNAME[Q], name), not bad and bool(alts), q, "every non-None result is the pair returned by Store::%s (%s)" % (want, bad or "ok"))
+        # every way out of Q::remove hands back Store::remove's answer for the named item (no other source of a result)
+        q = prog.fn("%s::remove" % Q)
+        ctx.anchor("%s::remove" % Q, q is not None)
+        foreign = []
+        for a in ret_alts(view, q):
+            a = strip(a)
+            if a[0] == "adt" and a[2] in ("None", "Some"):
+                continue
+            if a[0] == "call" and a[1].split("::")[-1] in ("from_residual", "map", "and_then") and any(
+                    c[1] == "store::Store::remove" for c in _calls_in(a)):
+                continue
+            foreign.append(term_str(a)[:60])
+        ob("%s::remove:single-source" % QNAME[Q], not foreign, q,
+           "every result is None / Store::remove's answer" if not foreign else "a result that does not come from Store::remove(item): %s" % foreign)
         cl = prog.fn("%s::remove::{closure#0}" % Q)
         if cl is not None:
             r = strip(ret_term(view, cl))
@@ -1297,10 +1367,8 @@ def r_returns(ctx, view):
         q = prog.fn("%s::change_priority_by" % Q)
         ctx.anchor("%s::change_priority_by" % Q, q is not None)
         alts = [strip(a) for a in ret_alts(view, q)]
-        ok = False
-        for a in alts:
-            if a[0] == "call" and a[1].split("::")[-1] == "is_some" and any(c[1].split("::")[-1] == "change_priority_by" for c in _calls_in(a)):
-                ok = True
+        ok = bool(alts) and all(a[0] == "call" and a[1].split("::")[-1] == "is_some" and any(
+            c[1].split("::")[-1] == "change_priority_by" for c in _calls_in(a)) for a in alts)
         if not ok and all(a[0] == "const" for a in alts) and {a[1].replace("const ", "") for a in alts} == {"true", "false"}:
             ok = True  # match form: Some => true, None => false (R-ABSENT ties the arms to the lookup)
         ob("%s::change_priority_by" % QNAME[Q], ok, q, "returns whether the lookup succeeded (%s)" % [term_str(a)[:40] for a in alts])
